@@ -43,6 +43,10 @@ pub struct Prog {
     /// include files (name relative to the program's own include directory, contents)
     #[serde(default)]
     pub files: Vec<(String, String)>,
+    /// compile through the command line front end (`run -i ... <file>`, cmds::launch_tool:
+    /// RunAndCompileInputData option derivation + compile_file) and compare what it prints
+    #[serde(default)]
+    pub cli: bool,
 }
 
 #[derive(Serialize, Deserialize, Clone, Debug, PartialEq)]
@@ -237,6 +241,39 @@ fn compile_text(
     }
 }
 
+/// The `run` tool, as the command line runs it; the program text is read from `path`.
+fn compile_cli(path: &str, search: &[String]) -> Compiled {
+    use chialisp::classic::clvm::__type_compatibility__::Stream;
+    let r = std::panic::catch_unwind(AssertUnwindSafe(|| {
+        let mut args: Vec<String> = vec!["run".to_string()];
+        for d in search {
+            args.push("-i".to_string());
+            args.push(d.clone());
+        }
+        args.push(path.to_string());
+        let mut out = Stream::new(None);
+        chialisp::classic::clvm_tools::cmds::launch_tool(&mut out, &args, "run", 2);
+        out.get_value().data().to_vec()
+    }));
+    match r {
+        Ok(b) if b.first() == Some(&b'(') || (b.len() < 40 && !b.contains(&b':')) => Compiled {
+            class: "ok",
+            bytes: b,
+            syms: String::new(),
+        },
+        Ok(_) => Compiled {
+            class: "err",
+            bytes: vec![],
+            syms: String::new(),
+        },
+        Err(_) => Compiled {
+            class: "panic",
+            bytes: vec![],
+            syms: String::new(),
+        },
+    }
+}
+
 fn digest(b: &[u8]) -> String {
     let mut h = Sha256::new();
     h.update(b);
@@ -350,15 +387,28 @@ fn run_compile_op(
             ))
         }
     };
-    let c = compile_text(
-        &prog.text,
-        &prog.name,
-        &prog.search,
-        prog.with_opts,
-        allocator,
-        syms,
-        re,
-    );
+    // a program marked for the command line front end is always compiled through it (the
+    // reference too), so the re-entry hook, which needs a CompilerOpts, does not apply to it
+    let cli = prog.cli;
+    let c = if cli {
+        let path = if prog.corpus {
+            prog.name.clone()
+        } else {
+            format!("r/src/{}", prog.name)
+        };
+        compile_cli(&path, &prog.search)
+    } else {
+        compile_text(
+            &prog.text,
+            &prog.name,
+            &prog.search,
+            prog.with_opts,
+            allocator,
+            syms,
+            re,
+        )
+    };
+    let with_syms = with_syms && !cli;
     let info = {
         let _g = seam::HarnessGuard::new();
         let dctr = ARGNAME_CTR.load(Ordering::SeqCst).wrapping_sub(ctr0) as u64;
@@ -515,6 +565,7 @@ pub fn generate(rng: &mut Rng, thorough: bool) -> Workload {
                     with_opts: rng.chance(1, 2),
                     corpus: true,
                     files: vec![],
+                    cli: rng.chance(1, 5),
                 });
                 continue;
             }
@@ -578,6 +629,7 @@ pub fn generate(rng: &mut Rng, thorough: bool) -> Workload {
             with_opts: rng.chance(1, 2),
             corpus: false,
             files,
+            cli: rng.chance(1, 5),
         });
     }
     let max_t = if thorough { 8 } else { 4 };
@@ -901,6 +953,10 @@ pub fn run_one(w: &Workload, tape: &mut Tape, entropy_seed: u64) -> Result<RunRe
     let _ = std::fs::remove_dir_all("r");
     for (i, p) in w.progs.iter().enumerate() {
         let _ = i;
+        if p.cli && !p.corpus {
+            let _ = std::fs::create_dir_all("r/src");
+            let _ = std::fs::write(format!("r/src/{}", p.name), &p.text);
+        }
         for (name, content) in p.files.iter() {
             for dir in p.search.iter().filter(|d| d.starts_with("r/")) {
                 let _ = std::fs::create_dir_all(dir);
